@@ -87,7 +87,7 @@ def register(reg):
     )
 
     reg.contract(
-        "werkzeug/datastructures/range.py:Range.range_for_length", prop=P,
+        "werkzeug/datastructures/range.py:Range.range_for_length", prop=P, replay="method",
         self_model=RangeM, params={"length": "Optional[int]"},
         requires=["I_range(self)", "length is None or length >= 0"],
         ensures=[
